@@ -26,7 +26,7 @@ PROPERTY = 'C16'
 ASSUMPTIONS = [
     'ulist elements are hashable scalars (ints and strings); only the constructor, copy and the operators + | - & are '
     'covered (in-place list methods such as append / extend / += are outside the statement)',
-    'a right operand is a list (or ulist) or a single non-list element; tuples count as single elements and are not enumerated',
+    'a right operand is a list (or ulist) or a single non-list element; tuples count as single elements (a small block of tuple elements is enumerated)',
     'mapping keys are plain strings that neither contain a dot nor shadow a dict / dictattr attribute; keys with a leading underscore take part in attribute READ access only '
     '(keys, items, copy ...); values are ints or lists, never dicts (Dict + other is a tree merge on nested dicts: that is C15)',
     "d - ('a', 'b') with a tuple is nested-path deletion and is excluded; d | other is not named by the statement and is not checked",
@@ -180,6 +180,30 @@ def check_ulist(case):
             if exp != ref and exp != [e]:
                 out.nontrivial('%s:%r' % (sym, e))
         out.cls('single-present' if present else 'single-absent')
+    # ---- a tuple is a hashable single ELEMENT, not a list of elements: ulists holding tuples, a tuple as the right operand
+    if len(xs) <= 2:
+        tup_present, tup_absent = ('a', 1), ('zz', 9)
+        base = list(xs) + [tup_present]
+        refT = []
+        for e_ in base:
+            if e_ not in refT:
+                refT.append(e_)
+        for e in (tup_present, tup_absent, ('a',), (1, 'a')):
+            out.sub()
+            for sym, what, f in _UOPS:
+                u = ulist(list(base))
+                exp = _uref(what, refT, [e])
+                label = 'ulist(%r) %s %r (a tuple element)' % (base, sym, e)
+                try:
+                    res = f(u, e)
+                    out.call()
+                except Exception as ex:
+                    out.viol('ulist-raised', '%s raised %s: %s' % (label, type(ex).__name__, ex), op=sym, right='tuple')
+                    continue
+                if type(res) is not ulist or not _same(list(res), exp):
+                    out.viol('ulist-wrong-result', '%s: expected %r got %r' % (label, exp, list(res)), op=sym, right='tuple', present=e in refT)
+                if not _same(list(u), refT):
+                    out.viol('operand-mutated', '%s changed the left operand' % label, op=sym, right='tuple', side='left')
     return out
 
 
@@ -446,6 +470,21 @@ def check_mapping(case):
             if okd == 'mixed':
                 out.nontrivial('+%d%s' % (oi, okind))
 
+    # ---- relabel with a caller-owned dict of renames plus keyword renames: the caller's dict is an operand too
+    if 'a' in keys and 'b' in keys:
+        out.sub()
+        d = fresh()
+        m_ = {'a': 'x'}
+        try:
+            r1 = d.relabel(m_, b='y')
+            r2 = d.relabel(m_)
+            out.call(2)
+            if m_ != {'a': 'x'}:
+                out.viol('operand-mutated', "%s.relabel(m, b='y') changed the caller's dict m to %r" % (shown, m_), op='relabel', cls=cname, side='renames')
+            elif set(r1.keys()) != set(['x', 'y'] + [k for k in keys if k not in ('a', 'b')]) or set(r2.keys()) != set(['x'] + [k for k in keys if k != 'a']):
+                out.viol('wrong-keys', "%s.relabel(m, b='y') / relabel(m) with m={'a':'x'}: keys %s / %s" % (shown, list(r1.keys()), list(r2.keys())), op='relabel', cls=cname, how='dict+kwargs')
+        except Exception as e:
+            out.viol('raised', "%s.relabel(m, b='y') raised %s: %s" % (shown, type(e).__name__, e), op='relabel', cls=cname, how='dict+kwargs', exc=type(e).__name__)
     # ---- relabel
     for label, call, newname, rk in _relabels(keys):
         new = [newname(k) for k in keys]
